@@ -50,7 +50,11 @@ func init() {
 		Level:       "Sound static check (all paths) that the state check dominates exchange and callbacks and that verifier/challenge/state values are the same values on both sides.",
 		Note:        "Trusted: go/types+go/cfg, securecookie, oauth2.",
 		Technique:   "static analysis: assume/guarantee must-facts dataflow over go/cfg; same-value binding patterns",
-		Rules:       []string{"E1"},
-		Run:         func(c *Ctx) { RunE1(c, "C17", obs) },
+		Rules:       []string{"E1", "E6.R-closure-shared"},
+		Run: func(c *Ctx) {
+			RunE1(c, "C17", obs)
+			// per-request values (state, code challenge, options) must not live in variables shared by all requests of a handler
+			RunSliceAndClosureWrites(c, []string{"client/rp"}, nil)
+		},
 	})
 }
